@@ -73,6 +73,18 @@ def run(tier):
         for tn, tw, ts in INTS:
             add("dec_int", f"SELECT CAST({dec_lit(u, p, s)} AS {tn})", v=u, s1=s, ty={"w": tw, "s": ts})
         add("dec_text", f"SELECT CAST({dec_lit(u, p, s)} AS TEXT), CAST(CAST({dec_lit(u, p, s)} AS TEXT) AS DECIMAL({p},{s}))", v=u, s1=s)
+    # cast chains: the nested form must mean the composition of the single casts (the planner may flatten chains)
+    for sn, sw, ss in INTS:
+        for t1n, t1w, t1s in INTS:
+            for t2n, t2w, t2s in INTS:
+                if t1w < sw and t2w >= t1w and (tier == "thorough" or (sw + t1w + t2w) % 3 == 0):
+                    for v in boundary(sw, ss, False):
+                        add("int_chain", f"SELECT CAST(CAST({lit(v, sn)} AS {t1n}) AS {t2n})", v=v, ty1={"w": t1w, "s": t1s}, ty={"w": t2w, "s": t2s})
+    for (u, p, s) in decs[:: (1 if tier == "thorough" else 3)]:
+        for (p2, s2, p3, s3) in [(10, 1, 38, 4), (3, 0, 38, 2), (5, 2, 18, 4), (18, 0, 38, 10), (9, 1, 9, 3), (20, 1, 38, 1)]:
+            inner = f"CAST({dec_lit(u, p, s)} AS DECIMAL({p2},{s2}))"
+            add("dec_chain", f"SELECT {inner}, 1", chain_first=True, v=u, s1=s, p=p2, s=s2)
+            add("dec_chain", f"SELECT CAST({inner} AS DECIMAL({p3},{s3}))", chain_second=True, s1=s2, p=p3, s=s3)
     # float -> int (truncation)
     for x in [0.0, -0.0, 0.5, -0.5, 0.999, 1.5, -1.5, 2.5, -2.5, 126.9, 127.0, 127.5, 128.0, -128.0, -128.9, -129.0, 255.9, 256.0,
               32767.99, 32768.0, 2147483647.0, 2147483648.0, -2147483648.0, -2147483649.0, 9.223372036854775e18, 9.3e18, 1e19,
@@ -89,6 +101,14 @@ def run(tier):
         for tn, tw, ts in INTS:
             q = t.replace("'", "''")
             add("text_int", f"SELECT CAST('{q}' AS {tn})", txt=[ord(c) for c in t], ty={"w": tw, "s": ts})
+    # text -> decimal
+    for t in ["0", "1", "-1", "12.3", "12.34", "9.99", "9.994", "9.995", "9.999", "-9.995", "0.005", "-0.005", "0.0049", "99.9", "99.95", "100",
+              "999", "999.4", "999.5", "-999.5", "0.5", "1.5", "2.5", "-2.5", "00012.30", "12.300000000000000000000000001", "1e2", "1E-1",
+              " 1.5", "1.5 ", "+1.5", ".5", "1.", ".", "", "-", "abc", "1.2.3", "1,5", "12345678901234567890123456789012345678",
+              "123456789012345678901234567890123456789", "0.00000000000000000000000000000000000001", "--1", "1-", "NaN", "Infinity"]:
+        for (p, s_) in [(3, 2), (3, 0), (5, 2), (18, 3), (38, 10), (38, 0), (4, 4)]:
+            q = t.replace("'", "''")
+            add("text_dec", f"SELECT CAST('{q}' AS DECIMAL({p},{s_}))", txt=[ord(c) for c in t], p=p, s=s_)
     # dates
     for (y, m, d) in [(1970, 1, 1), (1969, 12, 31), (2000, 2, 29), (1900, 2, 29), (1900, 2, 28), (2024, 2, 29), (2023, 2, 29), (1, 1, 1),
                       (9999, 12, 31), (2021, 4, 31), (2021, 13, 1), (2021, 0, 10), (2021, 6, 0), (1600, 2, 29), (1582, 10, 10), (2038, 1, 19),
@@ -142,7 +162,8 @@ def run(tier):
         return {"k": "err" if k == "error" else (k or "missing"), "v": enc(0)}
     lines = []
     for i, (c, o) in enumerate(zip(cases, obs)):
-        ln = {"id": i, "kind": c["kind"], "v": enc(c.get("v", 0)), "ty": c.get("ty", {"w": 8, "s": True}), "p": c.get("p", 0),
+        ln = {"id": i, "kind": c["kind"], "v": enc(c.get("v", 0)), "ty": c.get("ty", {"w": 8, "s": True}), "ty1": c.get("ty1", {"w": 8, "s": True}),
+              "mid": "", "p": c.get("p", 0),
               "s": c.get("s", 0), "s1": c.get("s1", 0), "txt": c.get("txt", []), "y": c.get("y", 0), "m": c.get("m", 0), "d": c.get("d", 0),
               "out": {"k": "none", "v": enc(0)}, "rt": {"k": "none", "v": enc(0)}}
         if c["kind"] in ("int_text", "dec_text"):
@@ -158,6 +179,18 @@ def run(tier):
             else:
                 ln["kind"] = "text_date"   # an invalid date must fail both ways
                 ln["out"] = outrec(o)
+        elif c.get("chain_first"):
+            ln["kind"] = "dec_dec"          # the first cast alone is an ordinary decimal -> decimal observation
+            ln["out"] = outrec(o)
+        elif c.get("chain_second"):
+            first = outrec(obs[i - 1])
+            ln["out"] = outrec(o)
+            if first["k"] == "val":
+                ln["v"] = first["v"]
+            elif first["k"] == "err":
+                ln["mid"] = "err"
+            else:
+                ln["kind"], ln["out"] = "dec_dec", {"k": "unsupported", "v": enc(0)}     # first step crashed: reported on its own line
         else:
             ln["out"] = outrec(o)
         lines.append(ln)
@@ -181,7 +214,7 @@ def run(tier):
     for m in mism:
         c, o, ln = cases[m["mismatch"]], obs[m["mismatch"]], lines[m["mismatch"]]
         tgt = c["sql"].rsplit(" AS ", 1)[-1].rstrip(")") if c["kind"] not in ("int_text", "dec_text", "date_text") else "TEXT"
-        sig = {"family": "cast", "kind": c["kind"], "observed": ln["out"]["k"], "target": vlib.re.sub(r"\d+", "#", tgt)}
+        sig = {"family": "cast", "kind": ln["kind"], "observed": ln["out"]["k"], "target": vlib.re.sub(r"\d+", "#", tgt), "why": m.get("why", "")}
         if o.get("outcome") in ("panic", "abort"):
             sig["msg"] = vlib.re.sub(r"\d+", "#", o.get("msg", ""))[:140]
         rep.mismatch(sig, {"sql": c["sql"], "observed": {k: v for k, v in o.items()}, "operands": {k: v for k, v in c.items() if k not in ("sql",)}})
